@@ -224,6 +224,16 @@ var props = map[string]propDef{
 		Thorough:       budget{Runs: 4000, Chunk: 40, Wall: 40 * time.Minute, PerChunkGrace: 5 * time.Minute},
 		MinimiseBudget: 90 * time.Second,
 	},
+	"C08": {
+		Binary: "dsim-sql", Harness: "C08", Level: "exploration",
+		Rule: "each run = a repository history built through SQL behind the production engine (commits, a second table, branch b1 with its own commit and working-set-only row, tag, a deleted branch whose commit is garbage, a stash, an in-progress conflicted merge committed with dolt_allow_commit_conflicts, staged and unstaged rows; each feature drawn per run), then one task runs CALL dolt_gc (default / --full / --archive-level 0; once or twice) with the session-aware safepoint controller while 1-3 writer sessions (autocommit drawn; transactions opened before the collection and committed during or after it; INSERT, COMMIT, dolt_commit, index reads) run as further tasks. The seeded S1 scheduler (random walk or PCT) decides the interleaving: the collector is parked before BeginGC, every MarkAndSweepChunks, every SaveHashes, Finalize, AddChunksToStore, SwapChunksInStore, EndGC and PruneTableFiles; writers are parked between statements. After all tasks finish, and again after a clean restart: (a) the SQL fingerprint of everything the writers do not touch (heads, tags, logs, status, merge status, conflicts, stashes and every row of every table of every branch) equals the one taken before the collection; (b) every row whose commit a writer saw acknowledged is in the table; (c) a walk from the store root over every reference reads every chunk, with bytes that hash to its address. One evaluation = one (a)+(b)+(c) check.",
+		Assumptions: []string{"writers run whole statements between scheduling points; a statement that blocks on the collection lets the collector run on (interleavings inside one statement are not explored)", "interactive rebase, revert and cherry-pick state and statistics refs are not part of the generated histories"},
+		Real:        append([]string{"sqle/dprocedures dolt_gc with the session-aware safepoint controller (gcctx)", "doltdb.GC, types.ValueStore.GC, nbs generational store mark-and-sweep, table swap, prune"}, sqlReal...), Stub: []string{"MySQL wire protocol and listener", "goroutine scheduling between sessions and the phases of the collection (seeded S1 scheduler; the ValueStore's chunk store is wrapped to park the collector at phase boundaries)", "stats / event scheduler / binlog background threads (left idle)", "clock (testing/synctest fake clock)"}, Persistence: "not used (clean restarts only)",
+		ExpectProbes:   []string{"gc_phase_yields", "rows_acknowledged_during_collection", "chunks_walked", "gc", "gc--full", "context-switch", "history:conflicted-merge-in-progress", "history:stash", "clean-restart"},
+		Quick:          budget{Runs: 120, Chunk: 10, Wall: 150 * time.Second, PerChunkGrace: 120 * time.Second},
+		Thorough:       budget{Runs: 5000, Chunk: 40, Wall: 40 * time.Minute, PerChunkGrace: 5 * time.Minute},
+		MinimiseBudget: 90 * time.Second,
+	},
 	"C27": {
 		Binary: "dsim-sql", Harness: "C27", Level: "exploration",
 		Rule: "each run = 2-3 sessions (autocommit drawn per session) on main plus one session on branch b1 of a fresh on-disk repository behind the production SQL engine; one keyless table kl(a, b) with a secondary index; 20-70 seeded statements: multi-row INSERT of duplicate rows, DELETE ... LIMIT n, UPDATE ... LIMIT n, COMMIT / ROLLBACK, edits on b1, CALL dolt_merge('b1'), clean restarts. The reference model is a multiset per session (snapshot + own writes) and per branch; transaction commits and branch merges combine multiplicity changes row by row (both sides changed the multiplicity of one row differently => must be reported as a conflict). Every GROUP BY over all columns, COUNT(*) and index lookup must equal the multiset. One evaluation = one checked read.",
